@@ -1,7 +1,7 @@
 (* Lemmas for C20: characterisation of each handler (either the graph is left
    untouched and nothing is relayed, or every validation fact holds and the
    graph is extended in exactly one place), lifted to replays and steps. *)
-From Coq Require Import List NArith Bool Lia.
+From Coq Require Import List NArith Bool Lia Arith.
 From LV Require Import Gossip.Model.
 Import ListNotations.
 Local Open Scope N_scope.
@@ -882,6 +882,80 @@ Section WithOracles.
     left. now apply N.eqb_eq.
   Qed.
 
+  (* ---- the second entry point: Builder.ApplyChannelUpdate ---- *)
+  Notation apply_chan_upd := (apply_chan_upd verify).
+
+  Lemma apply_char now st u st' b :
+    apply_chan_upd now st u = (st', b) ->
+    st' = st \/
+    (exists e, alookup (cu_scid u) (s_edges st) = Some e /\
+               upd_fields_ok (e_cap e) u = true /\
+               verify (key_dir e (dir_of (cu_cf u))) (cu_dg u) (cu_sig u) = true /\
+               match pol_dir e (dir_of (cu_cf u)) with
+               | Some old => p_ts old < cu_ts u | None => True end /\
+               s_edges st' = ainsert (cu_scid u) (set_pol e (dir_of (cu_cf u)) (pol_of u)) (s_edges st) /\
+               s_nodes st' = s_nodes st /\ s_zombies st' = s_zombies st /\ b = true).
+  Proof.
+    unfold Model.apply_chan_upd. intros H.
+    destruct (alookup (cu_scid u) (s_edges st)) as [e|] eqn:Ee; [|inversion H; now left].
+    destruct (negb (upd_fields_ok (e_cap e) u)) eqn:Ef; [inversion H; now left|].
+    destruct (negb (verify (key_dir e (dir_of (cu_cf u))) (cu_dg u) (cu_sig u))) eqn:Ev;
+      [inversion H; now left|].
+    apply negb_false_iff in Ef, Ev.
+    unfold builder_update_edge in H. rewrite Ee in H. cbn [pol_of p_cf p_ts] in H.
+    destruct (pol_dir e (dir_of (cu_cf u))) as [old|] eqn:Eold.
+    - destruct (negb (N.ltb (p_ts old) (cu_ts u))) eqn:Eo; [inversion H; now left|].
+      apply negb_false_iff in Eo. apply N.ltb_lt in Eo.
+      inversion H; subst. right. exists e. rewrite Eold. repeat split; assumption.
+    - inversion H; subst. right. exists e. rewrite Eold. repeat split; assumption.
+  Qed.
+
+  (* a policy that differs after ApplyChannelUpdate is that update's: for this
+     channel and direction, consistent fields, signed by the node owning the
+     direction, strictly newer than the stored one; nothing else changes *)
+  Lemma apply_authentic now st u st' b :
+    apply_chan_upd now st u = (st', b) ->
+    s_nodes st' = s_nodes st /\ s_zombies st' = s_zombies st /\
+    edges_ext (s_edges st) (s_edges st') /\
+    forall scid e' d, (d = 0 \/ d = 1) -> alookup scid (s_edges st') = Some e' ->
+      pol_dir e' d <> old_pol st scid d ->
+      scid = cu_scid u /\ d = dir_of (cu_cf u) /\
+      upd_fields_ok (e_cap e') u = true /\
+      verify (key_dir e' d) (cu_dg u) (cu_sig u) = true /\
+      pol_dir e' d = Some (pol_of u) /\
+      match old_pol st scid d with Some o => p_ts o < cu_ts u | None => True end.
+  Proof.
+    intros H. destruct (apply_char _ _ _ _ _ H) as [->|(e & He & Hf & Hv & Hfr & Hed & Hn & Hz & _)].
+    - split; [reflexivity|]. split; [reflexivity|]. split; [apply edges_ext_refl|].
+      intros scid e' d _ He' Hne. unfold old_pol in Hne. rewrite He' in Hne. congruence.
+    - split; [assumption|]. split; [assumption|]. split.
+      + rewrite Hed. intros k. rewrite alookup_ainsert. destruct (N.eqb k (cu_scid u)) eqn:E.
+        * apply N.eqb_eq in E. subst. rewrite He. apply same_static_set_pol.
+        * destruct (alookup k (s_edges st)); [apply same_static_refl | exact I].
+      + intros scid e' d Hd He' Hne. unfold old_pol in *.
+        rewrite Hed, alookup_ainsert in He'. destruct (N.eqb scid (cu_scid u)) eqn:E.
+        * apply N.eqb_eq in E. subst scid. injection He' as <-. rewrite He in *.
+          destruct (N.eq_dec d (dir_of (cu_cf u))) as [->|Hd2].
+          -- split; [reflexivity|]. split; [reflexivity|].
+             pose proof (same_static_set_pol e (dir_of (cu_cf u)) (pol_of u)) as Hs.
+             rewrite <- (key_dir_static _ _ (dir_of (cu_cf u)) Hs).
+             destruct Hs as (_ & _ & _ & _ & Hcap & _). rewrite <- Hcap.
+             repeat split; try assumption. apply pol_dir_set_same.
+          -- exfalso. apply Hne. apply pol_dir_set_other; [apply dir_of_01 | assumption | assumption].
+        * rewrite He' in Hne. congruence.
+  Qed.
+
+  Lemma apply_preserves_inv now st u st' b :
+    apply_chan_upd now st u = (st', b) -> nodes_have_channels st -> nodes_have_channels st'.
+  Proof.
+    intros H Hinv n nd Hn.
+    destruct (apply_authentic _ _ _ _ _ H) as (Hnn & _ & Hx & _). rewrite Hnn in Hn.
+    destruct (Hinv n nd Hn) as [?|(scid & e & He & Hend)]; [now left|]. right.
+    specialize (Hx scid). rewrite He in Hx.
+    destruct (alookup scid (s_edges st')) as [e'|] eqn:He'; [|contradiction].
+    exists scid, e'. split; [exact He'|]. destruct Hx as (H1 & H2 & _). now rewrite <- H1, <- H2.
+  Qed.
+
   (* ---- zombie resurrection ---- *)
   Lemma replay_zombie now ps : forall st st' outs,
     replay now st ps = (st', outs) ->
@@ -955,9 +1029,11 @@ Section WithOracles.
     hist_inv sd -> hist_inv (ev_step cfg verify fund expected_script is_alias sa i sd e).
   Proof.
     destruct sd as [st dirty]. unfold hist_inv. cbn [fst snd ev_step]. intros Hinv.
-    destruct e as [now peer m|o|].
+    destruct e as [now peer m|now u|o|].
     - cbn [fst snd]. intros Hd. destruct (step now peer i st m) as [st' outs] eqn:E. cbn [fst].
       eapply step_preserves_inv; [eassumption | now apply Hinv].
+    - cbn [fst snd]. intros Hd. destruct (apply_chan_upd now st u) as [st' b] eqn:E. cbn [fst].
+      eapply apply_preserves_inv; [eassumption | now apply Hinv].
     - cbn [fst snd]. destruct o as [spent|lo hi|scid z strict|]; cbn [op_sweeps apply_op is_unswept_removal].
       + destruct (sa || op_closes st spent) eqn:Es.
         * intros _. apply sweep_inv.
@@ -1068,3 +1144,41 @@ Definition channelless_na_applied (sa : bool) (h : list event) : Prop :=
 Lemma window_refuted :
   channelless_na_applied true w_hist_kv /\ channelless_na_applied false w_hist_sql.
 Proof. split; vm_compute; repeat split; discriminate. Qed.
+
+(* ---- concurrent updates of one policy slot ---- *)
+Lemma cw_atomic_one ts k s log :
+  cw_run ts (mkCw s [] log) [CwCheck k; CwWrite k] =
+  if N.ltb s (ts k) then mkCw (ts k) [] (log ++ [(s, ts k)]) else mkCw s [] log.
+Proof.
+  cbn [cw_run fold_left cw_step cw_store cw_passed cw_log].
+  destruct (N.ltb s (ts k)); cbn [cw_step cw_store cw_passed cw_log existsb filter].
+  - now rewrite Nat.eqb_refl.
+  - reflexivity.
+Qed.
+
+Lemma cw_atomic_run ts ks : forall s log,
+  Forall (fun p => fst p < snd p) log ->
+  let r := cw_run ts (mkCw s [] log) (atomic_schedule ks) in
+  cw_store r = fold_left N.max (map ts ks) s /\ cw_passed r = [] /\
+  Forall (fun p => fst p < snd p) (cw_log r).
+Proof.
+  induction ks as [|k ks IH]; intros s log Hlog; cbn [atomic_schedule flat_map map fold_left].
+  - cbn. repeat split. assumption.
+  - change (flat_map (fun k0 => [CwCheck k0; CwWrite k0]) ks) with (atomic_schedule ks).
+    unfold cw_run. rewrite fold_left_app. fold (cw_run ts (mkCw s [] log) [CwCheck k; CwWrite k]).
+    rewrite cw_atomic_one. destruct (N.ltb s (ts k)) eqn:E.
+    + apply N.ltb_lt in E. replace (N.max s (ts k)) with (ts k) by lia.
+      apply IH. apply Forall_app. split; [assumption|]. constructor; [exact E | constructor].
+    + apply N.ltb_ge in E. replace (N.max s (ts k)) with s by lia. now apply IH.
+Qed.
+
+(* witness: store holds 1; update 0 carries timestamp 5, update 1 timestamp 9;
+   both checks run before either write, the newer one is written first *)
+Definition w_ts (k : nat) : N := match k with O => 5 | _ => 9 end.
+Definition w_sched : list cw := [CwCheck 0; CwCheck 1; CwWrite 1; CwWrite 0].
+
+Lemma cw_nonatomic_witness :
+  let r := cw_run w_ts (mkCw 1 [] []) w_sched in
+  cw_store r = 5 /\ cw_log r = [(1, 9); (9, 5)] /\
+  fold_left N.max (map w_ts [0%nat; 1%nat]) 1 = 9.
+Proof. vm_compute. repeat split. Qed.
